@@ -112,6 +112,53 @@ func vxCheckLookups(s *PebbleScanner, live *vxLive, ids []string) {
 	if which == 4 {
 		vxCheckStats(s, live)
 	}
+	if which == 5 {
+		vxCheckIndexEntries(s, live)
+	}
+}
+
+// what the candidate and alert scans read: every entry of the exact-hash and of the fuzzy index,
+// decoded with the store's own decoder, names a live signature, sits under that signature's current
+// hash, and carries its current entropy score and tolerance (the scans' pre-filter); and every live
+// signature has its entries. A stale packed value is observable by a scan at a suitable entropy,
+// so this is the lookup clause of C06 stated on what the lookups read.
+func vxCheckIndexEntries(s *PebbleScanner, live *vxLive) {
+	for pass := 0; pass < 2; pass++ {
+		prefix := prefixIdxTopo
+		if pass == 1 {
+			prefix = prefixIdxFuzzy
+		}
+		it, err := s.db.NewIter(&pebble.IterOptions{LowerBound: prefix, UpperBound: incrementLastByte(prefix)})
+		vxAssert("index-iteration-no-error", err == nil)
+		if err != nil {
+			return
+		}
+		n := 0
+		for it.First(); it.Valid(); it.Next() {
+			n++
+			id, score, tol, packed := decodeIndexValue(it.Value())
+			w := live.get(id)
+			vxAssert("index-entry-names-a-live-signature", w != nil)
+			if w != nil {
+				wantKey := buildTopoIndexKey(w.TopologyHash, w.ID)
+				if pass == 1 {
+					wantKey = buildFuzzyIndexKey(w.FuzzyHash, w.ID)
+				}
+				vxAssert("index-entry-is-under-the-current-hash", vxStrEq(string(it.Key()), string(wantKey)))
+				if packed {
+					vxAssert("index-entry-carries-the-current-entropy-filter", vxAnd(vxSameF64(score, w.EntropyScore), vxSameF64(tol, w.EntropyTolerance)))
+				}
+			}
+		}
+		it.Close()
+		want := 0
+		for _, sg := range live.sigs {
+			if pass == 0 || sg.FuzzyHash != "" {
+				want++
+			}
+		}
+		vxAssert("index-has-one-entry-per-live-signature", n == want)
+	}
 }
 
 func vxCheckByID(s *PebbleScanner, live *vxLive, ids []string) {
@@ -241,6 +288,11 @@ func VerifC06_Step() {
 	s := vxNewStore()
 	live := &vxLive{}
 	ids := []string{vxID(), vxID()}
+	if vxParam("fixedids", 0) == 1 {
+		// the candidate-scan family multiplies the splits of the entropy filter with those of symbolic IDs:
+		// it runs with two fixed IDs (what IDs look like is covered by the other families)
+		ids = []string{"A", "B"}
+	}
 	pre := vxPick(vxParam("pre", 2) + 1)
 	for i := 0; i < pre; i++ {
 		sg := vxSig(ids[i])
